@@ -59,14 +59,14 @@ def preload():
 
 
 EXPECTED_PROBES = {t: ["torn_root_inside_token", "torn_module", "torn_to_empty", "garble_float_id", "garble_string_enum_value",
-                       "garble_unknown_param", "garble_param_arity", "garble_empty_enum", "garble_array_size", "garble_deep_nest", "garble_int_width", "garble_import_cycle", "other_text:random_tokens", "other_text:crlf", "other_text:bom", "banner_comment", "exotic_line_separators", "root_path:symlink", "root_path:rel",
+                       "garble_unknown_param", "garble_param_arity", "garble_impl_unknown_type", "garble_rename", "garble_case_twin", "garble_empty_enum", "garble_array_size", "garble_deep_nest", "garble_int_width", "garble_import_cycle", "other_text:random_tokens", "other_text:crlf", "other_text:bom", "banner_comment", "exotic_line_separators", "root_path:symlink", "root_path:rel",
                        "missing_module", "empty_module", "string_api", "tree_modified_in_place", "shared_logger_reused", "err_rendered",
                        "citation_checked"] for t in TIERS}
 
 REPL = {
-    "number": ['"x"', "foo", "1.5", "-1", "99999999999999999999", "1e3", ""],
-    "string": ["7", "foo", '""', "1.5", '"\\""'],
-    "ident": ["7", '"s"', "u8", "str", "Optional", "struct", "x.y", ""],
+    "number": ['"x"', "foo", "1.5", "-1", "99999999999999999999", "1e3", "", '"5%"', '"%s"', '"{0}"'],
+    "string": ["7", "foo", '""', "1.5", '"\\""', '"%s"', '"100%"', '"{0}"', '"%(x)s"'],
+    "ident": ["7", '"s"', "u8", "str", "Optional", "struct", "x.y", "", '"%d"'],
     "punct": ["{", "}", "[", "]", "(", ")", ",", ":", ";", "@", "|", "=", ".", ""],
     "comment": [""],
 }
@@ -120,17 +120,17 @@ def targeted(rng, text, toks, self_mod="main"):
     ids = [m for m in re.finditer(r"@\s*(\d+)", text)]
     if ids:
         m = rng.choice(ids)
-        out.append(("garble_float_id", text[:m.start(1)] + rng.choice(["0.5", "1e2", "-3", '"1"']) + text[m.end(1):]))
+        out.append(("garble_float_id", text[:m.start(1)] + rng.choice(["0.5", "1e2", "-3", '"1"', '"1%"']) + text[m.end(1):]))
     ev = [m for m in re.finditer(r"=\s*(\d+),", text)]
     if ev:
         m = rng.choice(ev)
-        out.append(("garble_string_enum_value", text[:m.start(1)] + rng.choice(['"x"', "1.5", "On", "[1]"]) + text[m.end(1):]))
+        out.append(("garble_string_enum_value", text[:m.start(1)] + rng.choice(['"x"', "1.5", "On", "[1]", '"50%"', '"%s"', '"{0}"', '"%(v)d"']) + text[m.end(1):]))
     pm = [m for m in re.finditer(r"\|\s*(unit|range)\(([^)]*)\)", text)]
     if pm:
         m = rng.choice(pm)
         out.append(("garble_unknown_param", text[:m.start(1)] + rng.choice(["foo", "units", "Range"]) + text[m.end(1):]))
         m = rng.choice(pm)
-        newargs = rng.choice(["", "1.0", "1.0, 2.0, 3.0", '"a", "b"', "x"])
+        newargs = rng.choice(["", "1.0", "1.0, 2.0, 3.0", '"a", "b"', "x", '"0%", "100%"', '"%d"'])
         out.append(("garble_param_arity", text[:m.start(2)] + newargs + text[m.end(2):]))
     else:
         # add a parameter with wrong arity to some field
@@ -139,6 +139,23 @@ def targeted(rng, text, toks, self_mod="main"):
             m = rng.choice(fm)
             out.append(("garble_param_arity", text[:m.end(1)] + rng.choice([" | range(1.0)", " | unit()", " | foo", " | unit(1, 2)"]) + text[m.end(1):]))
             out.append(("garble_unknown_param", text[:m.end(1)] + ' | scale("x")' + text[m.end(1):]))
+    # a second type whose name differs from an existing one only in letter case (a copy of the declaration): distinct names
+    tb = [m for m in re.finditer(r"(?m)^(struct|enum) (\w+) \{\n(?:[^{}]*\n)?\}\n", text)]
+    if tb:
+        m = rng.choice(tb)
+        nm = m.group(2)
+        twin = nm.upper() if nm.upper() != nm else nm.lower()
+        other = "enum" if m.group(1) == "struct" and rng.random() < 0.5 else None
+        block = m.group(0).replace(f"{m.group(1)} {nm} ", f"{m.group(1)} {twin} ", 1)
+        if other:
+            block = f"enum {twin} {{\n    On = 1,\n}}\n"
+        out.append(("garble_case_twin", text + "\n" + block))
+    # a binding whose type is not a declared struct (misspelt, an enum's name, the protocol name)
+    im = [m for m in re.finditer(r"impl (\w+) for (\w+)", text)]
+    if im:
+        m = rng.choice(im)
+        enames = re.findall(r"enum (\w+)", text)
+        out.append(("garble_impl_unknown_type", text[:m.start(2)] + rng.choice(["Undeclared9", m.group(2) + "x", m.group(1)] + enames[:1]) + text[m.end(2):]))
     en = [m for m in re.finditer(r"enum (\w+) \{([^}]*)\}", text)]
     if en:
         m = rng.choice(en)
@@ -174,7 +191,7 @@ def targeted(rng, text, toks, self_mod="main"):
     ar = [m for m in re.finditer(r"\[[^\[\],]+, (\d+)\]", text)]
     if ar:
         m = rng.choice(ar)
-        out.append(("garble_array_size", text[:m.start(1)] + rng.choice(["2.5", "-1", "0", '"3"', "99999999999"]) + text[m.end(1):]))
+        out.append(("garble_array_size", text[:m.start(1)] + rng.choice(["2.5", "-1", "0", '"3"', "99999999999", '"3%"']) + text[m.end(1):]))
     return out
 
 
@@ -186,7 +203,8 @@ def garbles(rng, text, n):
     for _ in range(n):
         ti = rng.randrange(len(toks))
         k, a, b = toks[ti]
-        op = weighted(rng, [("illegal", 2), ("retype", 4), ("delete", 2), ("dup", 1.5), ("swap", 1.5), ("insert_illegal", 1)])
+        op = weighted(rng, [("illegal", 2), ("retype", 4), ("delete", 2), ("dup", 1.5), ("swap", 1.5), ("insert_illegal", 1),
+                            ("rename", 2.5 if k == "ident" else 0)])
         if op == "illegal":
             out.append(("garble_illegal", text[:a] + rng.choice(ILLEGAL) + text[b:], k))
         elif op == "insert_illegal":
@@ -194,6 +212,12 @@ def garbles(rng, text, n):
             out.append(("garble_illegal", text[:p] + rng.choice(ILLEGAL) + text[p:], k))
         elif op == "retype":
             out.append(("garble_retype", text[:a] + rng.choice(REPL.get(k, [""])) + text[b:], k))
+        elif op == "rename":
+            # the text stays well-formed, a NAME changes: to another identifier of the file, another letter case, a fresh one
+            others = sorted({text[a2:b2] for k2, a2, b2 in toks if k2 == "ident" and text[a2:b2] != text[a:b]})
+            cur = text[a:b]
+            new = rng.choice([cur.upper(), cur.lower(), cur + "x", "Undeclared9"] + (rng.sample(others, min(3, len(others))) if others else []))
+            out.append(("garble_rename", text[:a] + new + text[b:], k))
         elif op == "delete":
             out.append(("garble_delete", text[:a] + text[b:], k))
         elif op == "dup":
